@@ -95,6 +95,33 @@ contract(
     locals={"entryAnchor": Opt(Ref(NODE)), "exitAnchor": Opt(Ref(NODE)), "entry": Opt(Ref("c18_UAnchor")), "exit_": Opt(Ref("c18_UAnchor"))},
 )
 
+# The same function, only WHICH sides exist (no coordinates): what `_makeCursiveStatements#records` needs of its callee.  Proved against the same
+# body; callers that do not read coordinates call through this variant (fewer quantified hypotheses on their paths).
+_GAS = "ufo2ft.featureWriters.cursFeatureWriter:CursFeatureWriter._getAnchors"
+
+
+def _side_presence(k, nm):
+    r = f"result[{k}]"
+    return {
+        f"{nm}-null-iff-no-such-anchor": f"iff({r} is None, not ({_own(nm)} or (glyphName in {_FG} and any({_A}[b].name == {nm}Name for b in range(len({_A}))))))",
+        f"{nm}-is-an-anchor-node": f"implies({r} is not None, {r}.kind == 'Anchor')",
+    }
+
+
+contract(
+    _GAS,
+    name="presence",
+    props=["C18"],
+    params=dict(CONTRACTS[_GAS].params),
+    returns=CONTRACTS[_GAS].returns,
+    globals={"ast": M.fea_shim(), "isinstance": M.ISINSTANCE},
+    requires=["not self.context.isVariable"],
+    ensures={**_side_presence(0, "entry"), **_side_presence(1, "exit"),
+             "two-nodes": "implies(result[0] is not None and result[1] is not None, result[0] != result[1])"},
+    canaries={"entry-always-null": "result[0] is None", "exit-never-null": "result[1] is not None"},
+    locals=dict(CONTRACTS[_GAS].locals),
+)
+
 # ---- _getCursiveAnchorPairs ------------------------------------------------------------------------------------------------------------------
 from .c06sets import NAMESET, NAMESET_CTOR  # noqa: E402
 
@@ -385,6 +412,7 @@ MCS_COMMON = dict(
     globals={"ast": M.fea_shim(), "isinstance": M.ISINSTANCE},
     requires=["not self.context.isVariable"],
     merge_branches=False,
+    calls={_GAS: _GAS + "#presence"},  # (#entry / #exit below read the coordinates: they call through the full contract)
     # (new nodes only; declared as the fields they are stored in because the loop havoc is per field)
     modifies=["c17_Node.kind", "c17_Node.glyph", "c17_Node.glyphclass", "c17_Node.entryAnchor", "c17_Node.exitAnchor"],
     locals=MCS_LOCALS,
@@ -403,7 +431,6 @@ MCS_COMMON = dict(
 _INV1 = {
     "len": f"len(src) == len(cursiveAnchors) and len(cursiveAnchors) == len({_KS})",
     "bound": "all(0 <= src[p] and src[p] < i for p in range(len(src)))",
-    "order": _ORDER,
     "keys": f"all(allocated({_KS}[p]) and allocated({_V}[0]) and allocated({_V}[1]) and {_KS}[p].kind == 'GlyphName' and {_KS}[p].glyph == glyphs[src[p]].name"
     f" and ({_V}[0] is None or {_V}[0].kind == 'Anchor') and ({_V}[1] is None or {_V}[1].kind == 'Anchor') for p in range(len({_KS})))",
 }
@@ -426,19 +453,59 @@ contract(
     name="records",
     **MCS_COMMON,
     ensures={
-        "records-in-glyph-order": "len(src) == len(result) and " + _ORDER + " and all(0 <= src[k] and src[k] < len(glyphs) for k in range(len(result)))",
+        "record-positions": "len(src) == len(result) and all(0 <= src[k] and src[k] < len(glyphs) for k in range(len(result)))",
         "record-of-its-glyph": _SHAPE,
         "at-least-one-side": "all(result[k].entryAnchor is not None or result[k].exitAnchor is not None for k in range(len(result)))",
-        "every-glyph-with-an-anchor": "all(implies(" + _present("glyphs[a]", "entry") + " or " + _present("glyphs[a]", "exit") + ", any(src[k] == a for k in range(len(src)))) for a in range(len(glyphs)))",
     },
     canaries={"never-empty": "len(result) > 0", "entry-always": "all(result[k].entryAnchor is not None for k in range(len(result)))"},
     loops={
         MCS_LOOP1: Loop(index="i", invariants={
             **_INV1,
             "one-side": f"all({_V}[0] is not None or {_V}[1] is not None for p in range(len({_KS})))",
-            "complete": "all(implies(" + _present("glyphs[a]", "entry") + " or " + _present("glyphs[a]", "exit") + ", any(src[p] == a for p in range(len(src)))) for a in range(i))",
         }),
         MCS_LOOP2: Loop(index="t", seq="KK", invariants={**_INV2, "len1": _INV1["len"]}),
+    },
+)
+
+# Glyph order as its own variant (the adjacent form `src[p] < src[p + 1]` keeps producing the next position: a chain of instances that slowed
+# every other obligation of the function down when it was a hypothesis of all of them).
+_SLIM_HINTS = {MCS_PUT: [MCS_COMMON["hints"][MCS_PUT][0], MCS_COMMON["hints"][MCS_PUT][2], MCS_COMMON["hints"][MCS_PUT][3]]}
+_OLD_KEYS = f"all(allocated({_KS}[p]) for p in range(len({_KS})))"  # (so that the GlyphName node created next is a NEW key)
+contract(
+    MCS,
+    name="order",
+    **{**MCS_COMMON, "hints": _SLIM_HINTS},
+    ensures={"records-in-glyph-order": "len(src) == len(result) and " + _ORDER},
+    canaries={"never-empty": "len(result) > 0"},
+    loops={
+        MCS_LOOP1: Loop(index="i", invariants={"len": _INV1["len"], "old-keys": _OLD_KEYS, "bound": _INV1["bound"], "order": _ORDER}),
+        MCS_LOOP2: Loop(index="t", seq="KK", invariants={"len": _INV2["len"], "len1": _INV1["len"]}),
+    },
+)
+
+# Completeness as its own variant: together with `keys` (which mentions glyphs[src[p]]) the Skolem witness of "some record position holds a" is a
+# matching loop for z3-5.1 (60 000 instances, every obligation of the function fell through to cvc5).  This variant carries only what it needs.
+_ANY = "(" + _present("glyphs[a]", "entry") + " or " + _present("glyphs[a]", "exit") + ")"
+contract(
+    MCS,
+    name="complete",
+    **{**MCS_COMMON, "hints": _SLIM_HINTS, "dict_key_positions": False,
+       "locals": {**MCS_LOCALS, "pos": Dict(INT, INT)},
+       # pos[a]: the record position of glyph a (a flat ghost witness instead of an existential under the quantifier over the glyphs)
+       "ghost_vars": {**MCS_COMMON["ghost_vars"], "pos": (Dict(INT, INT), "{}")},
+       "ghost": {**MCS_COMMON["ghost"], MCS_PUT: MCS_COMMON["ghost"][MCS_PUT] + ["pos = {**pos, i: len(s0)}"]}},
+    ensures={
+        "every-glyph-with-an-anchor": "len(src) == len(result) and all(implies(" + _ANY + ", any(src[k] == a for k in range(len(src)))) for a in range(len(glyphs)))",
+    },
+    canaries={"every-glyph": "all(any(src[k] == a for k in range(len(src))) for a in range(len(glyphs)))"},
+    loops={
+        MCS_LOOP1: Loop(index="i", invariants={
+            "len": _INV1["len"],
+            "old-keys": "all(allocated(kn) for kn in cursiveAnchors)",  # (membership form: no key positions needed)
+            "witness": "all(0 <= pos[a] and pos[a] < len(src) and src[pos[a]] == a for a in pos)",
+            "complete": "all(implies(" + _ANY + ", a in pos) for a in range(i))",
+        }),
+        MCS_LOOP2: Loop(index="t", seq="KK", invariants={"len": _INV2["len"], "len1": _INV1["len"]}),
     },
 )
 
@@ -450,7 +517,7 @@ for _k, _nm in ((0, "entry"), (1, "exit")):
     contract(
         MCS,
         name=_nm,
-        **{**{k: v for k, v in MCS_COMMON.items() if k != "hints"}, "props": []},
+        **{**{k: v for k, v in MCS_COMMON.items() if k not in ("hints", "calls")}, "props": []},
         ensures={
             "record-of-its-glyph": "len(src) == len(result) and all(0 <= src[k] and src[k] < len(glyphs) for k in range(len(result))) and " + _SHAPE,
             f"{_nm}-anchor-at-rounded-coordinates": f"all(implies(result[k].{_nm}Anchor is not None, result[k].{_nm}Anchor.kind == 'Anchor' and " + _coords(f"result[k].{_nm}Anchor", "glyphs[src[k]]", _nm) + ") for k in range(len(result)))",
